@@ -81,6 +81,18 @@ CLAIMS = {
               "The reasons in the table are reviewed judgements, not machine proofs."),
         technique="reachability on the instance call graph + per-site guard discharge (interval/dominance) + reviewed exception table + taint-to-allocation rule",
         design_ref="§4 C10, Appendix A"),
+    "C01": dict(
+        category="other",
+        text=("Decides the structural clauses that make the consensus codec a bijection, for all inputs at once: the trailing-data gate of "
+              "deserialize; every canonicity guard with its error edge (minimal varints; exhaustive 256-value decision tables of the "
+              "confidential prefixes and the dynafed tag; witness-flag table incl. the all-empty rejection; superfluous null issuance; "
+              "flag-bit extraction only under vout != 0xffffffff; empty vector <=> absent proof); writer/reader agreement of the ordered "
+              "(field, wire type) lists for every type with both impls (8 structs, ~20 newtypes, the three confidential unions, Params, "
+              "TxIn, Transaction, BlockHeader/ExtData) incl. flag folding and byte order; length accounting of every encoder (each nested "
+              "encode is summed or a fixed-width literal is added); the three varint tables; bounded allocation on decoder paths. Byte "
+              "identity of secp256k1 parse/serialize is trusted; equality of values is argued per field, not executed."),
+        technique="sibling codec agreement on MIR event sequences + exhaustive decision tables over tag bytes + dominance of canonicity guards + return-value dataflow",
+        design_ref="§4 C01"),
 }
 
 NOT_YET = "rule set designed in DESIGN.md but not built yet in this round; no claim is made"
